@@ -76,7 +76,7 @@ theorem ring_shape (t sp : Nat) (ad : Option Nat) (cap : Nat) (hc : 1 ≤ cap) (
 theorem one_obs_per_round_same (s : St) (h : s.sp.last.round = s.round) : s.touch.sp = s.sp := by
   unfold St.touch SP.update
   simp only []
-  split <;> first | rfl | rw [if_pos h]
+  split <;> rfl
 
 /-- … the first operation of a new round records exactly one, taken from the PRE-operation
     reserves with weight = rounds since the previous observation … -/
@@ -357,5 +357,38 @@ theorem query_guards (t sp : Nat) (ad : Option Nat) (cap : Nat) (hc : 1 ≤ cap)
         simp only [Option.bind_some]
         rw [← hst]
         exact lookup_none_of_future hi (by rw [hst]; exact h)
+
+/-! ### non-vacuity -/
+
+/-- a concrete history on a capacity-4 ring: several operations per round, gaps of thousands of
+    rounds, the ring wraps (physical order 4005, 4100, 20, 4000 with the newest at index 2).
+    The hypotheses of the theorems above are live on it: the window (30, 4050] interpolates in
+    the older part (second search interval) and in the newer part; the LP window (4003, 4150]
+    starts between the LAST physical slot and slot 1 (the wrap seam) and ends after the newest
+    observation (extrapolation); the three guards reject. -/
+example :
+    let s := run (init 300 50 none 4)
+      [.cfg (.setState .active), .addLiq 1000000 2000000 1 1, .advance 3, .swapIn .ab 10000 1,
+       .swapIn .ba 5000 1, .advance 7, .swapOut .ba 900000 1000, .advance 20,
+       .addLiq 500000 1000000 1 1, .removeLiq 1000 1 1, .advance 4000, .swapIn .ab 777 1,
+       .advance 4005, .swapIn .ba 99999 1, .advance 4100, .swapIn .ab 1 1, .advance 4200]
+    s.sp.obs.map (·.round) = [4005, 4100, 20, 4000] ∧ s.sp.cur = 2 ∧
+    (oldest s.sp).map (·.round) = some 20 ∧
+    (binSearch s.sp 30).map (·.2) = some 4 ∧
+    (binSearch s.sp 4003).map (·.2) = some 4 ∧
+    (neighbours s.sp 4003 4).map (fun x => (x.1.round, x.2.round)) = some (4000, 4005) ∧
+    (binSearch s.sp 4050).map (·.2) = some 1 ∧
+    getSafePrice s 30 4050 (some .ab) 1000000 = some 1975909 ∧
+    getSafePrice s 20 4200 (some .ba) 1000000 = some 504929 ∧
+    getLpSafePrice s 4003 4150 1000000 = some (974734, 2052158) ∧
+    getSafePriceByDefaultOffset s (some .ab) 1000000 = some 2016665 ∧
+    getSafePrice s 19 4050 (some .ab) 1000000 = none ∧
+    getSafePrice s 30 4201 (some .ab) 1000000 = none ∧
+    getSafePrice s 30 30 (some .ab) 1000000 = none := by
+  decide
+
+/-- the interpolation kernel on numbers that do not divide evenly anywhere else -/
+example : ((20 - 13) * 1000003 + (13 - 7) * (1000003 + (20 - 7) * 12347)) / ((20 - 13) + (13 - 7))
+    = 1000003 + (13 - 7) * 12347 := by decide
 
 end Mx.C13
